@@ -16,7 +16,7 @@
            deviations named in the constant KF (open known findings).                          *)
 EXTENDS Naturals, Sequences, FiniteSets, TLC, Json
 
-CONSTANTS Walker,   \* "ndp" "lldp" "hbh" "dhcp" "nbns" "icmp4" "ssdp" "name" "dnsmsg" "arp" "llc"
+CONSTANTS Walker,   \* "ndp" "lldp" "hbh" "dhcp" "nbns" "icmp4" "ssdp" "name" "dnsmsg" "arp" "llc" "mcache" "ping"
           MaxLen,   \* maximal number of elements
           Alpha,    \* "wide" (full alphabet) or "deep" (reduced alphabet, longer sequences)
           KF        \* names of the deviations of the code that are currently open
@@ -37,7 +37,7 @@ RejL(c, v) == [verdict |-> "reject", cls |-> c, strict |-> FALSE, val |-> v]   \
 -----------------------------------------------------------------------------
 (* NDP options (RFC 4861 4.6): type, length in units of 8 octets, present bytes. *)
 NdpTypes == IF Alpha = "wide" THEN {1, 2, 3, 5, 24, 25, 31, 200} ELSE {1, 25, 31, 200}
-NdpLens  == IF Alpha = "wide" THEN {0, 1, 2, 3, 4, 5, 255} ELSE {0, 1, 3}
+NdpLens  == IF Alpha = "wide" THEN {0, 1, 2, 3, 4, 5, 32, 33, 255} ELSE {0, 1, 3}   \* 32, 33: 8*l wraps in a uint8
 NdpElems == {e \in [t : NdpTypes, l : NdpLens, p : {"full", "hdr1", "body"}] :
                /\ e.p = "hdr1" => e.l = 0           \* only the type octet is present
                /\ e.p = "body" => e.l >= 1          \* header present, fewer than 8*l octets
@@ -149,18 +149,23 @@ DhcpAux == {[op |-> 1, port |-> 67], [op |-> 2, port |-> 68], [op |-> 2, port |-
 -----------------------------------------------------------------------------
 (* NBNS node status response (RFC 1002 4.2.18): NUM_NAMES, then 18 octet entries. *)
 NbnsElems == {[g |-> g] : g \in BOOLEAN}             \* one complete entry; g = group name flag
-NbnsAux == {[n |-> n, x |-> x, ans |-> a] : n \in {0, 1, 2, 3, 255}, x \in {0, 1, 2, 16, 17},
-                                             a \in {"nbstat", "nb", "other", "query"}}
-NbnsAvail(s, a) == 18 * Len(s) + a.x                 \* octets after NUM_NAMES
+\* aux: n = NUM_NAMES claimed, pad = further complete (unique) entries after the enumerated ones,
+\* x = octets of one more, incomplete entry, ans = kind of answer record carrying the array.
+\* The second family crosses 8 bit arithmetic: 18 * n wraps at n = 15 (270 = 14 mod 256), 20 (104), 28 (248), 29 (10).
+NbnsAux == {[n |-> n, pad |-> 0, x |-> x, ans |-> a] : n \in {0, 1, 2, 3, 255}, x \in {0, 1, 2, 16, 17},
+                                                       a \in {"nbstat", "nb", "other", "query"}}
+      \cup {[n |-> n, pad |-> pd, x |-> x, ans |-> "nbstat"] : n \in {14, 15, 20, 28, 29}, pd \in {0, 5, 13, 27}, x \in {0, 14}}
+NbnsPresent(s, a) == Len(s) + a.pad
+NbnsAvail(s, a) == 18 * NbnsPresent(s, a) + a.x      \* octets after NUM_NAMES
+NbnsUnique(s, p) == IF p > Len(s) THEN TRUE ELSE ~s[p].g
 \* the reference reads entry pos, or rejects when fewer than 18 octets are left for a claimed entry
 NbnsStep(s, a, p, ac) ==
   IF p > a.n THEN [adv |-> 0, acc |-> Acc(ac.val)]
-  ELSE IF p > Len(s) THEN [adv |-> 0, acc |-> Rej("short", ac.val)]
-  ELSE [adv |-> 18, acc |-> Go(IF ac.val = 0 /\ ~s[p].g THEN p ELSE ac.val)]   \* first unique name
-NbnsMechArray(s, a) ==       \* parseNodeNameArray (nbns.go:172): checks 16n+2, indexes 18n
+  ELSE IF p > NbnsPresent(s, a) THEN [adv |-> 0, acc |-> Rej("short", ac.val)]
+  ELSE [adv |-> 18, acc |-> Go(IF ac.val = 0 /\ NbnsUnique(s, p) THEN p ELSE ac.val)]   \* first unique name
+NbnsMechArray(s, a) ==       \* parseNodeNameArray (nbns.go:172): before 2a84c2c it checked 16n+2 and indexed 18n
   IF NbnsAvail(s, a) + 1 < 3 THEN "ok"
-  ELSE IF NbnsAvail(s, a) < 16 * a.n + 2 THEN "ok"
-  ELSE IF NbnsAvail(s, a) < 18 * a.n /\ "KF_NbnsArrayBounds" \in KF THEN "panic"
+  ELSE IF "KF_NbnsArrayBounds" \in KF /\ NbnsAvail(s, a) >= 16 * a.n + 2 /\ NbnsAvail(s, a) < 18 * a.n THEN "panic"
   ELSE "ok"
 NbnsMech(s, a) ==            \* ProcessNBNS answer loop (nbns.go:255)
   CASE a.ans = "query" -> "ok"
@@ -168,7 +173,7 @@ NbnsMech(s, a) ==            \* ProcessNBNS answer loop (nbns.go:255)
     [] OTHER -> NbnsMechArray(s, a)
 \* the name ProcessNBNS reports (0 = none): with KF_NbnsFirstName always entry 1
 NbnsMechName(s, a) ==
-  LET uniq == {i \in 1..Min(a.n, Len(s)) : ~s[i].g} IN
+  LET uniq == {i \in 1..Min(a.n, NbnsPresent(s, a)) : NbnsUnique(s, i)} IN
   IF uniq = {} THEN 0 ELSE IF "KF_NbnsFirstName" \in KF THEN 1 ELSE CHOOSE i \in uniq : \A j \in uniq : i <= j
 
 -----------------------------------------------------------------------------
@@ -355,11 +360,42 @@ LlcStep(e, a) == IF e.len < 3 THEN [adv |-> 0, acc |-> Rej("short", a.val)]
                  ELSE [adv |-> 1, acc |-> Go(<<e.sap>>)]
 
 -----------------------------------------------------------------------------
+(* Stateful family "mcache": one DNSHandler across frames.  mDNS responses are cached per (source MAC,
+   transaction id) for five minutes; "age" lets more than five minutes pass; "dns" is a unicast DNS
+   response that is stored in the DNS table, "find" a DNSFind of its name.  The reference keeps the
+   cache and table contents; every call must return (C08) and the outcomes are listed in val.out. *)
+McKeys == {<<m, i>> : m \in {1, 2}, i \in {1, 2}}
+McElems == {[k |-> "mdns", m |-> key[1], i |-> key[2]] : key \in IF Alpha = "wide" THEN McKeys ELSE {<<1, 1>>, <<2, 1>>}}
+      \cup {[k |-> x, m |-> 0, i |-> 0] : x \in {"age", "dns", "find"}}
+McAcc0 == [cache |-> [key \in McKeys |-> "none"], table |-> FALSE, out |-> <<>>]
+McStep(e, v) ==
+  CASE e.k = "mdns" ->
+         IF v.cache[<<e.m, e.i>>] = "fresh" THEN [v EXCEPT !.out = Append(@, "cached")]
+         ELSE [v EXCEPT !.cache[<<e.m, e.i>>] = "fresh", !.out = Append(@, "names")]   \* expired entries are dropped and re-read
+    [] e.k = "age" -> [v EXCEPT !.cache = [key \in McKeys |-> IF @[key] = "fresh" THEN "expired" ELSE @[key]], !.out = Append(@, "-")]
+    [] e.k = "dns" -> [v EXCEPT !.out = Append(@, IF v.table THEN "known" ELSE "stored"), !.table = TRUE]
+    [] OTHER -> [v EXCEPT !.out = Append(@, IF v.table THEN "found" ELSE "empty")]
+
+(* Stateful family "ping": the process-wide echo waiter table.  "ping" starts Session.Ping / Ping6 and waits until
+   the request is on the wire; "reply" feeds the matching echo reply for the youngest pending ping through Parse
+   n times back to back; "stale" is an echo reply nobody waits for; "wait" lets every pending ping finish. *)
+PingElems == {[k |-> "ping", n |-> v] : v \in {4, 6}} \cup {[k |-> "reply", n |-> n] : n \in {1, 2}}
+        \cup {[k |-> "stale", n |-> 0], [k |-> "wait", n |-> 0]}
+PingAcc0 == [pending |-> <<>>, out |-> <<>>]
+PingStep(e, v) ==
+  CASE e.k = "ping" -> [v EXCEPT !.pending = Append(@, e.n)]
+    [] e.k = "reply" -> IF v.pending = <<>> THEN v
+                        ELSE [v EXCEPT !.pending = SubSeq(@, 1, Len(@) - 1), !.out = Append(@, "answered")]
+    [] e.k = "stale" -> v
+    [] OTHER -> [v EXCEPT !.pending = <<>>, !.out = @ \o [j \in 1..Len(v.pending) |-> "timeout"]]
+
+-----------------------------------------------------------------------------
 (* Dispatch. *)
 Elems == CASE Walker = "ndp" -> NdpElems [] Walker = "lldp" -> LldpElems [] Walker = "hbh" -> HbhElems
            [] Walker = "dhcp" -> DhcpElems [] Walker = "nbns" -> NbnsElems [] Walker = "icmp4" -> Icmp4Elems
            [] Walker = "ssdp" -> SsdpElems [] Walker = "name" -> NameElems [] Walker = "dnsmsg" -> MsgElems
            [] Walker = "arp" -> ArpElems [] Walker = "llc" -> LlcElems
+           [] Walker = "mcache" -> McElems [] Walker = "ping" -> PingElems
 Terminal(e) == CASE Walker = "ndp" -> NdpTerminal(e) [] Walker = "lldp" -> LldpTerminal(e)
                  [] Walker = "hbh" -> HbhTerminal(e) [] Walker = "dhcp" -> DhcpTerminal(e)
                  [] Walker = "name" -> NameTerminal(e) [] Walker = "dnsmsg" -> MsgTerminal(e)
@@ -373,7 +409,8 @@ AuxSet(s) == CASE Walker = "dhcp" -> DhcpAux [] Walker = "nbns" -> NbnsAux [] Wa
                [] Walker = "lldp" -> {[trail |-> t] : t \in {0, 1, 3}}
                [] Walker = "icmp4" -> IF s = <<>> THEN {} ELSE {[x |-> 0]}
                [] OTHER -> {[x |-> 0]}
-Acc0(s, a) == CASE Walker = "name" -> Go(NameAcc0(a)) [] Walker = "nbns" -> Go(0) [] OTHER -> Go(<<>>)
+Acc0(s, a) == CASE Walker = "name" -> Go(NameAcc0(a)) [] Walker = "nbns" -> Go(0)
+                [] Walker = "mcache" -> Go(McAcc0) [] Walker = "ping" -> Go(PingAcc0) [] OTHER -> Go(<<>>)
 Pos0(s, a) == IF Walker = "name" THEN a.start ELSE 1
 Sizes(s) == [j \in 1..Len(s) |-> Size(s[j])]
 TotalBytes(s) == SumN(Sizes(s), Len(s))
@@ -381,7 +418,7 @@ Measure(s, a, p, ac) ==
   CASE Walker = "name" -> NameMeasure(s, p, ac.val)
     [] Walker \in {"ndp", "lldp", "hbh", "dhcp"} -> TotalBytes(s) - SumN(Sizes(s), Min(p - 1, Len(s))) + 1
     [] Walker = "dnsmsg" -> ClaimedTotal(s, a) + 2 - p
-    [] Walker = "nbns" -> (IF a.n > Len(s) THEN Len(s) + 1 ELSE a.n) + 2 - p
+    [] Walker = "nbns" -> (IF a.n > NbnsPresent(s, a) THEN NbnsPresent(s, a) + 1 ELSE a.n) + 2 - p
     [] OTHER -> Len(s) + 2 - p
 \* one step of the reference walker: new position and accumulator
 RefStep(s, a, p, ac) ==
@@ -389,6 +426,8 @@ RefStep(s, a, p, ac) ==
     [] Walker = "dnsmsg" -> LET r == MsgStep(s, a, p, ac) IN [pos |-> p + 1, acc |-> r.acc]
     [] Walker = "nbns" -> LET r == NbnsStep(s, a, p, ac) IN [pos |-> p + 1, acc |-> r.acc]
     [] Walker = "ssdp" -> LET r == SsdpStep(s, a, p, ac) IN [pos |-> p + 1, acc |-> r.acc]
+    [] Walker = "mcache" -> [pos |-> p + 1, acc |-> IF p > Len(s) THEN Acc(ac.val) ELSE Go(McStep(s[p], ac.val))]
+    [] Walker = "ping" -> [pos |-> p + 1, acc |-> IF p > Len(s) THEN Acc(PingStep([k |-> "wait", n |-> 0], ac.val)) ELSE Go(PingStep(s[p], ac.val))]
     [] OTHER ->
        IF p > Len(s) THEN [pos |-> p + 1, acc |->
              CASE Walker = "lldp" -> RejL("noend", ac.val) [] Walker = "dhcp" -> RejL("noend", ac.val)
@@ -404,6 +443,7 @@ Mech(s, a, final) ==
     [] Walker = "lldp" -> [tlv |-> LldpMech(s, a)]
     [] Walker = "nbns" -> [nbns |-> NbnsMech(s, a), array |-> NbnsMechArray(s, a)]
     [] Walker = "icmp4" -> [h4 |-> Icmp4Mech(s)]
+    [] Walker \in {"mcache", "ping"} -> [state |-> "ok"]
     [] Walker = "ssdp" -> [ssdp |-> SsdpMech(s, a)]
     [] Walker = "name" -> [question |-> NameMech(s, a, final), question_frame |-> "ok"]   \* in the loop's buffer the read past the end stays inside the capacity
     [] Walker = "dnsmsg" -> [dns |-> DnsMech(s, a), dns_frame |-> "ok", mdns |-> MdnsMech(s, a)]
@@ -478,7 +518,7 @@ Progress == [][(phase = "walk" /\ phase' = "walk") => rem' < rem]_vars
 MeasurePositive == phase = "walk" => rem > 0
 
 Vector == [w |-> Walker, seq |-> seq, aux |-> aux, verdict |-> acc.verdict, cls |-> acc.cls, strict |-> acc.strict,
-           val |-> IF Walker = "name" THEN acc.val.labels ELSE acc.val,
+           val |-> CASE Walker = "name" -> acc.val.labels [] Walker \in {"mcache", "ping"} -> acc.val.out [] OTHER -> acc.val,
            mech |-> Mech(seq, aux, acc), dev |-> Dev(seq, aux, acc), extra |-> Extra(seq, aux, acc)]
 \* name vectors are exported only when every element takes part in the decoding (others only shift offsets)
 Relevant == Walker = "name" => acc.val.touched = 1..Len(seq)
